@@ -599,7 +599,7 @@ func TestC08_Schnorr(t *testing.T) {
 			groups = append(groups, gi)
 		}
 	}
-	rcheck(t, 90*len(groups), 2500*len(groups), func(t *rapid.T) {
+	rcheck(t, 90*len(groups), 5000*len(groups), func(t *rapid.T) {
 		gi := groups[uniformInt(t, 0, len(groups)-1, "group")]
 		c08Schnorr(t, ev, gi)
 	})
@@ -607,7 +607,7 @@ func TestC08_Schnorr(t *testing.T) {
 
 func TestC08_EdDSA(t *testing.T) {
 	ev := evFor("C08")
-	rcheck(t, 1500, 40000, func(t *rapid.T) {
+	rcheck(t, 1500, 80000, func(t *rapid.T) {
 		if rapid.IntRange(0, 3).Draw(t, "family") == 0 {
 			c08Canonicity(t, ev)
 		} else {
@@ -618,5 +618,5 @@ func TestC08_EdDSA(t *testing.T) {
 
 func TestC08_Ring(t *testing.T) {
 	ev := evFor("C08")
-	rcheck(t, 600, 15000, func(t *rapid.T) { c08Ring(t, ev) })
+	rcheck(t, 600, 30000, func(t *rapid.T) { c08Ring(t, ev) })
 }
